@@ -262,3 +262,32 @@ PROPS["C14"] = dict(
     max_parallel=8,
     min_evaluations={"quick": 40, "thorough": 200},
 )
+
+PROPS["C15"] = dict(
+    title="LINGER governs what happens to accepted messages at close",
+    rule="sender in {PUSH, ROUTER, DEALER, PUB} (own context) queues N accepted messages (0 / 200 / 3000 / 5000x4 KiB = beyond kernel buffers) "
+         "towards a reading peer (fast or slow) over tcp/ipc/inproc, then close() / term() / close()+term() / handle drop + term() with "
+         "LINGER in {-1, 0, 10 s (, 50 ms, 1 s)}. The C01 integrity oracle runs on what the peer received (never truncated, corrupt or "
+         "duplicated); completeness is required when LINGER is -1 or 10 s; close/term wall time must be prompt for LINGER 0 (< 3 s) and must "
+         "not exceed LINGER + 12 s otherwise. distinct = (sender, transport, LINGER, depth, how, reader pace).",
+    assumptions=["'ample' LINGER = 10 s for at most 20 MB over loopback", "PUB may legitimately drop, so completeness is not required of it",
+                 "DEALER loss/reorder is recorded under C01 and not re-judged here"],
+    shards=lambda tier, seed: sharded("c15", _n(tier, 12, 16), _n(tier, 600, 3000)),
+    max_parallel=8,
+    min_evaluations={"quick": 30, "thorough": 300},
+)
+
+PROPS["C16"] = dict(
+    title="close() and term() always finish and leave nothing running or hanging",
+    rule="chaos histories on a 4-worker runtime: 1..3 bound/connected socket pairs of all eight types in one context over tcp/ipc/inproc with "
+         "HWM in {1,4,100}, each socket driven by looping send / recv / set_option+get_option tasks (so sends block at HWM and recvs block on "
+         "empty queues), optionally a connector retrying against a dead port and a raw peer stalled mid-handshake; after a seeded delay "
+         "(0..150 ms) term() alone, close() on all or half the sockets then term(), or close() and term() concurrently. Assertions: returned "
+         "within 30 s and not via term's internal 10 s timeout, no panic, every worker loop ends within 4 s (operations on closed sockets "
+         "return), probes send()/recv() return within 2 s, endpoints of closed binders can be bound again within 2 s, live-actor count 0, no "
+         "inproc names left, tokio alive tasks and /proc/self/fd back to their pre-history values within 3 s. distinct = plan.",
+    assumptions=["task/fd baselines are taken inside the same runtime just before each history"],
+    shards=lambda tier, seed: sharded("c16", _n(tier, 8, 16), _n(tier, 300, 1500)),
+    max_parallel=8,
+    min_evaluations={"quick": 40, "thorough": 400},
+)
